@@ -102,6 +102,9 @@ func newTextSpan(node *cascadedNode) (drawable, error) {
 
 // returns the text bounding box
 func (t *textSpan) draw(dst backend.Canvas, attrs *attributes, svg *SVGImage, dims drawingDims) []vertex {
+	if dims.fontSize < 1e-6 { // nothing to draw (and glyph metrics are divided by the font size)
+		return nil
+	}
 	t.style.SetFontSize(pr.FToV(dims.fontSize))
 
 	splitted := text.SplitFirstLine([]rune(t.text), t.style, svg.textContext, pr.Inf, false, true)
